@@ -131,7 +131,10 @@ def gen_project(rng: random.Random, size: str = 'small') -> T.Dict[str, T.Any]:
                 else:
                     e['link_with'].append(prev['name'])
         if pairs and rng.random() < 0.4:
-            e['pairs'].append(rng.choice(pairs)['name'])
+            # (a pair's .c defines a function: compiled into one library only, or the link sees it twice)
+            pn = rng.choice(pairs)['name']
+            if not any(pn in l['pairs'] for l in libs):
+                e['pairs'].append(pn)
         if gsrcs and rng.random() < 0.4:
             g = rng.choice(gsrcs)
             if not any(g['name'] in o.get('gsrcs', []) for o in libs):
